@@ -78,3 +78,46 @@ Fixpoint gaps_from (gap t : Z) (ts : list Z) : Prop :=
   | [] => True
   | x :: r => t + gap <= x /\ gaps_from gap x r
   end.
+
+(* ---- replaced limiter objects ----
+   A connection that is suspended inside take_tokens of a limiter object when the limit is changed
+   keeps polling THAT object until it is granted once (send_file/receive_file read the limiter
+   attribute again only at the next chunk).  [stale] over-approximates the set of such objects: every
+   replaced limited limiter is kept and may be polled at any later time. *)
+Record net := mkNet { cur : option lim; stale : list lim }.
+Inductive nop := NTake (now : Z) | NSet (kbps : Z) | NTakeStale (i : nat) (now : Z).
+
+Fixpoint poll_nth (i : nat) (now : Z) (ls : list lim) : list lim * Z :=
+  match ls, i with
+  | [], _ => ([], 0)
+  | l :: r, O => (fst (take l now) :: r, snd (take l now))
+  | l :: r, S j => (l :: fst (poll_nth j now r), snd (poll_nth j now r))
+  end.
+
+Definition nstep (n : net) (o : nop) : net * Z :=
+  match o with
+  | NTake now => (mkNet (fst (mstep (cur n) (Take now))) (stale n), snd (mstep (cur n) (Take now)))
+  | NSet k => (mkNet (set_limit (cur n) k)
+                     (match cur n with Some l => l :: stale n | None => stale n end), 0)
+  | NTakeStale i now => (mkNet (cur n) (fst (poll_nth i now (stale n))), snd (poll_nth i now (stale n)))
+  end.
+
+Fixpoint nrun (n : net) (ops : list nop) : net :=
+  match ops with [] => n | o :: r => nrun (fst (nstep n o)) r end.
+
+(* observations of the net machine: grant, and bucket of the limiter object that was polled
+   (for NSet: bucket of the new current limiter; unlimited = 0) *)
+Definition bucket_of (c : option lim) : Z := match c with Some l => bucket l | None => 0 end.
+
+Fixpoint nobs (n : net) (ops : list nop) : list (Z * Z) :=
+  match ops with
+  | [] => []
+  | o :: r =>
+      let n' := fst (nstep n o) in
+      let g := snd (nstep n o) in
+      let b := match o with
+               | NTake _ | NSet _ => bucket_of (cur n')
+               | NTakeStale i _ => bucket_of (nth_error (stale n') i)
+               end in
+      (g, b) :: nobs n' r
+  end.
